@@ -20,6 +20,49 @@ use std::collections::HashMap;
 use std::io::stdin;
 use std::sync::atomic::Ordering;
 
+/// Verification-only deterministic fuel counter (compiled only with `--cfg duckscript_verif`).
+/// Every call to `run_instruction` consumes one unit; once exhausted, every further
+/// instruction crashes, so any script terminates after a bounded number of instructions.
+#[cfg(duckscript_verif)]
+pub mod verif_fuel {
+    use std::cell::Cell;
+
+    thread_local! {
+        static REMAINING: Cell<u64> = Cell::new(u64::MAX);
+        static USED: Cell<u64> = Cell::new(0);
+        static EXHAUSTED: Cell<bool> = Cell::new(false);
+    }
+
+    /// Sets the number of instruction executions allowed on this thread and resets the counters.
+    pub fn set(limit: u64) {
+        REMAINING.with(|r| r.set(limit));
+        USED.with(|u| u.set(0));
+        EXHAUSTED.with(|e| e.set(false));
+    }
+
+    /// Number of instruction executions since the last `set`.
+    pub fn used() -> u64 {
+        USED.with(|u| u.get())
+    }
+
+    /// True if the limit was hit since the last `set`.
+    pub fn exhausted() -> bool {
+        EXHAUSTED.with(|e| e.get())
+    }
+
+    pub(crate) fn consume() -> bool {
+        let remaining = REMAINING.with(|r| r.get());
+        if remaining == 0 {
+            EXHAUSTED.with(|e| e.set(true));
+            true
+        } else {
+            REMAINING.with(|r| r.set(remaining - 1));
+            USED.with(|u| u.set(u.get() + 1));
+            false
+        }
+    }
+}
+
 #[derive(Debug)]
 enum EndReason {
     ExitCalled,
@@ -316,6 +359,14 @@ pub fn run_instruction(
     line: usize,
     env: &mut Env,
 ) -> (CommandResult, Option<String>) {
+    #[cfg(duckscript_verif)]
+    if verif_fuel::consume() {
+        return (
+            CommandResult::Crash("verif: fuel exhausted".to_string()),
+            None,
+        );
+    }
+
     let mut output_variable = None;
     let command_result = match instruction.instruction_type {
         InstructionType::Empty => CommandResult::Continue(None),
